@@ -420,9 +420,12 @@ class Table(Vector):
 						f"(sanitizes to '{sanitized}'), not '{base_name}'"
 					)
 				
-				# Replace the column at validated index
+				# Replace the column at validated index (with a snapshot: the table
+				# owns its columns, the caller keeps an independent vector)
 				if not isinstance(value, Vector):
 					value = Vector(value)
+				else:
+					value = value.copy()
 				
 				if self._underlying and len(value) != self._length:
 					raise ValueError(
@@ -439,9 +442,12 @@ class Table(Vector):
 			# Regular column lookup by name
 			col_idx = self._column_map.get(attr) or self._column_map.get(attr.lower())
 			if col_idx is not None:
-				# Replace the column in _underlying
+				# Replace the column in _underlying (with a snapshot: the table
+				# owns its columns, the caller keeps an independent vector)
 				if not isinstance(value, Vector):
 					value = Vector(value)
+				else:
+					value = value.copy()
 				
 				# Validate length
 				if self._underlying and len(value) != self._length:
